@@ -3,8 +3,11 @@
 The solver gives no model for these quantified queries (it answers `unknown`), so a failing input
 is looked for among the recorded protocol-level histories (findings/*.py, one per defect ever found
 by the checks, open or fixed): each is run against the real code of the current tree; a history
-that fails is the replayed counterexample. Nothing found => the caller reports
-`no-failing-input-found`."""
+that fails is the replayed counterexample.  Failing that, for the methods the differential harness
+can drive (pvc/diff.py TARGETS, and the helpers they call), the real method is run on reachable
+database states (native/diffcheck.py) and a run on which the failed contract clause is false -
+precondition true - is the counterexample: a concrete input, pre-state and post-state of the real
+code.  Nothing found within the budget => the caller reports `no-failing-input-found`."""
 import json
 import os
 import re
@@ -13,7 +16,63 @@ import subprocess
 HERE = os.path.dirname(os.path.dirname(os.path.abspath(__file__)))
 
 
+ENCLOSING = {
+    "AppNamespace._summarize_mailbox": ["Mailbox.close", "AppNamespace.prune"],
+    "AppNamespace._summarize_mailbox_and_store": ["Mailbox.close", "AppNamespace.prune"],
+    "AppNamespace._summarize_nameplate_usage": ["AppNamespace.release_nameplate", "Mailbox.close", "AppNamespace.prune"],
+    "AppNamespace._summarize_nameplate_and_store": ["AppNamespace.release_nameplate", "Mailbox.close", "AppNamespace.prune"],
+    "Mailbox._touch": ["Mailbox.open"],
+    "AppNamespace._add_mailbox": ["AppNamespace.open_mailbox"],
+    "AppNamespace._find_available_nameplate_id": ["AppNamespace.allocate_nameplate"],
+    "AppNamespace.get_nameplate_ids": ["AppNamespace._get_nameplate_ids"],
+}
+BUDGET_S = float(os.environ.get("PVC_CEX_BUDGET", "300"))
+_spent = [0.0]
+_cache = {}
+
+
+def search_native(pid, name, obls):
+    import time
+    from . import diff
+    fn = (obls[0].get("function") or name.split("#")[0]).replace("server.", "", 1)
+    what = name.split("#", 1)[1] if "#" in name else ""
+    if fn in diff.TARGETS:
+        targets = [fn]
+        clause = ".".join(what.split(".")[:2]) if what.startswith(("ensures.", "raises.")) else ""
+        if "@" in clause:
+            clause = ""
+    else:
+        targets, clause = ENCLOSING.get(fn, []), ""
+    for target in targets:
+        key = (target, clause)
+        if key not in _cache:
+            left = BUDGET_S - _spent[0]
+            if left < 20:
+                return None
+            t0 = time.time()
+            try:
+                _cache[key] = diff.find_failing(target, clause, budget_s=min(150, left))
+            finally:
+                _spent[0] += time.time() - t0
+        d = _cache[key]
+        if d:
+            return {"kind": "the real method run on a reachable database state (native/diffcheck.py, seed %d): the contract clause "
+                            "is false on this run although the precondition holds" % d["seed"],
+                    "method": target, "false_clause": d["clause"], "arguments": d["args"], "app_id": d["app"],
+                    "mailbox_id": d["mailbox_id"], "usage_db": d["usage"], "blur": d["blur"], "raised": d["raised"],
+                    "result": d["result"], "tables_before": d["pre"], "tables_after": d["post"],
+                    "rerun": "cd /verif && python3-vt tools/replay_diff.py %s %d '%s'" % (target, d["seed"], d["clause"])}
+    return None
+
+
 def search(pid, name, obls):
+    r = search_recorded(pid, name, obls)
+    if r:
+        return r
+    return search_native(pid, name, obls)
+
+
+def search_recorded(pid, name, obls):
     fp = os.path.join(HERE, "known_findings.json")
     if not os.path.exists(fp):
         return None
